@@ -190,11 +190,11 @@ func init() {
 
 	inbox := func(prop int, tier string, witnesses ...string) HarnessSpec {
 		return HarnessSpec{Name: "inbox-unit", Pkg: "actor", Func: "ZZ_Inbox", Preempt: 2,
-			Params: pm("prop", prop, "T", tierSel(tier, 2, 3), "M", 2, "S", 2), Witnesses: append([]string{"start-races-with-senders"}, witnesses...), Deadline: 40 * time.Minute}
+			Params: pm("prop", prop, "T", tierSel(tier, 2, 3), "M", 2, "S", 2), Witnesses: append([]string{"start-races-with-senders"}, witnesses...), Deadline: 40 * time.Minute, TrustRace: prop == 2}
 	}
 	l2 := func(prop int, t, m, crash int, witnesses ...string) HarnessSpec {
 		return HarnessSpec{Name: fmt.Sprintf("process-threads(prop %d)", prop), Pkg: "actor", Func: "ZZ_L2", Preempt: 2,
-			Params: pm("prop", prop, "T", t, "M", m, "crash", crash), Witnesses: witnesses, Deadline: 40 * time.Minute}
+			Params: pm("prop", prop, "T", t, "M", m, "crash", crash), Witnesses: witnesses, Deadline: 40 * time.Minute, TrustRace: prop == 2}
 	}
 	thrAssume := func(extra ...string) []string {
 		return append(append(extra, "schedules: every interleaving of the goroutines at synchronisation granularity (atomics, mutexes, go, Gosched, Sleep, receiver yields) with at most 2 preemptions; interleavings are enumerated by the executor's scheduler decisions, data (payloads, crash flags) is symbolic and decided by z3", "goscheduler.Schedule's `go fn()` is an executor thread"), commonAssumptions...)
